@@ -121,8 +121,14 @@ static void build_fixture(Fixture& f, int tid) {
     embedded_pairing_bls12_381_g1affine_from_projective(&f.Pa, &f.P); embedded_pairing_bls12_381_g2affine_from_projective(&f.Qa, &f.Q);
     g_controlled = ctl; t_rng = save; t_id = save_id;
 }
+// digest of a fixture: every input object the calls read (the structs and the arrays they point to)
+static uint64_t fixture_digest(const Fixture& f) { return fnv(&f, sizeof f); }
+static Fixture* g_shared = nullptr;      // inputs shared by all threads (calls named *.shared read them; outputs stay private)
 // returns a digest of everything the call produced
-static uint64_t do_call(const std::string& name, Fixture& f, int tid, int idx) {
+static uint64_t do_call(const std::string& fullname, Fixture& own, int tid, int idx) {
+    bool shared = fullname.size() > 7 && fullname.compare(fullname.size() - 7, 7, ".shared") == 0;
+    std::string name = shared ? fullname.substr(0, fullname.size() - 7) : fullname;
+    Fixture& f = shared ? *g_shared : own;
     Rng g(77 * tid + 13 * idx + 5 + fnv(name.data(), name.size()) % 1000); t_rng = &g;
     uint64_t h = 0;
     if (name == "lq.encrypt") {
@@ -150,6 +156,13 @@ static uint64_t do_call(const std::string& name, Fixture& f, int tid, int idx) {
         embedded_pairing_wkdibe_sign(&sg, &f.wkp, &f.wksk, &f.al, &m, rt_random);
         bool ok = embedded_pairing_wkdibe_verify(&f.wkp, &f.al, &sg, &m);
         h = fnv(&sg, sizeof sg) ^ (ok ? 1 : 0);
+    } else if (name == "wk.marshal") {
+        uint8_t buf[4096]; memset(buf, 0, sizeof buf);
+        size_t n = embedded_pairing_wkdibe_params_get_marshalled_length(&f.wkp, idx % 2 == 0);
+        embedded_pairing_wkdibe_params_marshal(buf, &f.wkp, idx % 2 == 0);
+        size_t m = embedded_pairing_wkdibe_secretkey_get_marshalled_length(&f.wksk, true);
+        embedded_pairing_wkdibe_secretkey_marshal(buf + 2048, &f.wksk, true);
+        h = fnv(buf, n, fnv(buf + 2048, m));
     } else if (name == "pairing") {
         embedded_pairing_bls12_381_fq12_t e; memset(&e, 0, sizeof e);
         embedded_pairing_bls12_381_pairing(&e, &f.Pa, &f.Qa);
@@ -193,6 +206,9 @@ static void run_case(const JVal& in) {
     out.set("dispatch_before", dispatch_state());
     std::vector<Fixture> fix(n); g_fix = &fix;
     for (int t = 0; t < n; t++) build_fixture(fix[t], t + 1);
+    Fixture shared; build_fixture(shared, 99); g_shared = &shared;
+    std::vector<uint64_t> before(n); for (int t = 0; t < n; t++) before[t] = fixture_digest(fix[t]);
+    uint64_t shared_before = fixture_digest(shared);
     out.set("lib_changed_by_fixture", changed_ranges());
     std::vector<JVal> results(n, JVal::arr()), segs(n, JVal::arr());
     g_finished.assign(n, 0); g_pos = 0; g_desync = false;
@@ -221,6 +237,9 @@ static void run_case(const JVal& in) {
     JVal r = JVal::arr(), s = JVal::arr();
     for (int t = 0; t < n; t++) { r.push(results[t]); s.push(segs[t]); }
     out.set("results", r); out.set("segs", s);
+    // const inputs must come back untouched: the threads' own fixtures and the shared one
+    long long changed = 0; for (int t = 0; t < n; t++) if (fixture_digest(fix[t]) != before[t]) changed++;
+    out.set("inputs_changed", changed); out.set("shared_inputs_changed", (long long) (fixture_digest(shared) != shared_before ? 1 : 0));
     out.set("lib_changed", changed_ranges());
     out.set("dispatch_after", dispatch_state());
     out.set("ranges", (long long) g_ranges.size());
